@@ -5,6 +5,7 @@ user scripts, any position of a cancel / panic / context end) and over every sch
 -/
 import GoZero.C10.ProofsH
 import GoZero.C10.ProofsY
+import GoZero.C10.ProofsP
 namespace GoZero.C10
 
 /-! ### (b) at most `workers` mappers run concurrently -/
@@ -237,6 +238,66 @@ theorem every_run_ends_clean (c : Cfg) (hf : c.fixed = true) (hw : 1 ≤ c.worke
       have hlt := mu_step a h hs1
       obtain ⟨s', hst', hr', hrest⟩ := ih (mu c s1) (by omega) s1 (Reach.step a h hs1) rfl
       exact ⟨s', Steps.step a hs1 hst', hr', hrest⟩
+
+/-! ### (d') a user panic is re-raised
+
+FULL STATEMENT (false for the code as it is, see the witness below):
+
+    theorem panic_not_lost (c : Cfg) (hf : c.fixed = true) (hnc : noCancel c = true) (s : St) (h : Reach c s)
+        (r : Res) (hr : result s = some r) (hnp : resIsPanic r = false) : s.wrote = false
+
+i.e. "if nobody cancels and the context cannot end, a call that returns normally has captured no user panic".
+`onceChan.write` is `if CAS(&wrote,0,1) { channel <- val }`: the winner of the CAS is the only one that will
+ever send, but it sends LATER; a second panicking user function loses the CAS and goes on (wg.Done …).  Mapper
+and reducer goroutines send before `wg.Done` / `finish`, so the call waits for them; the GENERATOR goroutine
+is waited for by nobody but `drain(source)`, which runs after `close(collector)`.  So a generator that has
+won the CAS and is delayed before its send, plus a mapper that panics meanwhile, lets the call return the
+reducer's value with two user panics captured and none re-raised (`generator_panic_can_be_lost`).
+Proven instead: `panic_not_lost_partial` (the generator does not panic). -/
+
+/-- **A captured panic is re-raised** (partial: the generator does not panic).  If nobody cancels, the
+context cannot end and the generator does not panic, a call of the repaired code that returns a value or an
+error — not a panic — has captured no panic at all: `onceChan.wrote` is still false and the channel is
+empty.  (Every panicking mapper / reducer goroutine passes `onceChan.write` before `wg.Done` / `finish`,
+and the call returns only after `finish`: `no_deadlock` shows it does return.) -/
+theorem panic_not_lost_partial (c : Cfg) (hf : c.fixed = true) (hnc : noCancel c = true) (hg : genPanics c = false)
+    (s : St) (h : Reach c s) (r : Res) (hr : result s = some r) (hnp : resIsPanic r = false) :
+    s.wrote = false ∧ s.pbuf = none := by
+  have P := invP_reach hnc hg hf h
+  unfold result at hr
+  split at hr
+  next r' hc =>
+    simp at hr; subst hr
+    have := P.k3 r' hc hnp
+    exact ⟨this.2, this.1⟩
+  next => simp at hr
+
+/-- two items, two workers: mapper 0 panics, the generator panics after the last item, the reducer ranges over
+the pipe and writes 7. -/
+def cfgLost : Cfg :=
+  { n := 2, workers := 2, gPanicAt := some 2,
+    mscript := fun i => if i = 0 then [.panic] else [],
+    rscript := [.readAll, .write 7], ctxCan := false, ctxPre := false, fixed := true }
+
+/-- both items are handed out; the generator panics and wins the CAS of `onceChan.write` but is delayed
+before its send; mapper 0 panics, loses the CAS, ends; mapper 1 ends; the dispatcher sees `failed`, closes
+the collector; the reducer writes 7 and ends; the caller takes 7, finds the panic channel empty, returns. -/
+def schedLost : List Actor :=
+  [.disp, .disp, .disp, .disp, .disp, .disp, .disp, .disp, .gen, .gen,
+   .mapper 0, .mapper 0, .mapper 0, .mapper 0, .mapper 0, .mapper 1, .mapper 1, .mapper 1,
+   .disp, .disp, .disp, .red, .red, .red, .red, .red, .red, .caller, .caller]
+
+def stateLost : St := (runSched cfgLost schedLost (init cfgLost)).getD (init cfgLost)
+
+/-- **Witness (a user panic can be lost; the code as it is, also after the round-1 fix).**  Nobody cancels;
+the generator and mapper 0 both panic; the call returns the reducer's value 7.  The generator goroutine
+stands between the CAS and the send of `onceChan.write`, mapper 0's panic was dropped because it lost the CAS. -/
+theorem generator_panic_can_be_lost :
+    Reach cfgLost stateLost ∧ noCancel cfgLost = true ∧ result stateLost = some (.val 7) ∧
+    stateLost.failed = 1 ∧ stateLost.wrote = true ∧ stateLost.wroteBy = some .gen ∧ stateLost.gpc = .psend ∧
+    stateLost.pbuf = none := by
+  have hr : Reach cfgLost stateLost := reach_runSched schedLost Reach.init (by rfl)
+  exact ⟨hr, by decide, by rfl, by rfl, by rfl, by rfl, by rfl, by rfl⟩
 
 /-! ### (e) nothing cancelled: the end-state equalities -/
 
